@@ -179,6 +179,28 @@ def ob_equivocation(run, oid):
                 if K.mentions_field(t, "commitment_cache", "BlockData"):
                     ws.setdefault(K.root_fn(b.defpath), []).append(c)
     o.check(set(x.rsplit("::", 1)[-1] for x in ws) == {"add_shred", "add_own_slice"}, "commitment_cache|writers", "commitment_cache is written in BlockData::add_shred and add_own_slice only", "", {"writers": [fshort(x) for x in ws]})
+    # no other mutation of the cache: entries are never removed, cleared or replaced (a forgotten commitment can no longer expose equivocation)
+    muts = []
+    for mb in K.bodies_in(prog, A + "consensus::blockstore"):
+        for c in mb.calls():
+            if c.args and K.is_field(K.peel(mb.operand_term(c.args[0])), "commitment_cache", "BlockData"):
+                op = c.name.rsplit("::", 1)[-1]
+                # calls taking the map mutably: look at the borrow kind of the argument's defining statement
+                a0 = c.args[0]
+                pl = a0.get("m") or a0.get("c")
+                mutable = False
+                if pl and not pl["p"]:
+                    for d in mb.defs().get(pl["l"], []):
+                        if d[0] == "stmt" and d[3]["rv"]["k"] == "ref" and d[3]["rv"].get("mut"):
+                            mutable = True
+                if mutable:
+                    muts.append((K.root_fn(mb.defpath).rsplit("::", 1)[-1], op, c.span))
+        for (bb, ow, name, rv, sp, dst) in mb.field_writes():
+            if name == "commitment_cache" and ow == BD and not K.root_fn(mb.defpath).endswith("::new"):
+                muts.append((K.root_fn(mb.defpath).rsplit("::", 1)[-1], "assign", sp))
+    for (fn, op, sp) in muts:
+        ok = (fn, op) in (("add_shred", "entry"), ("add_own_slice", "insert"))
+        o.check(ok, "commitment_cache|mutation|%s.%s" % (fn, op), "commitment_cache is mutated by %s via %s (allowed: add_shred.entry on first sight, add_own_slice.insert)" % (fn, op), sp)
     b = prog.body(BD + "::add_shred")
     if b is None:
         o.missing("BlockData::add_shred")
@@ -210,6 +232,13 @@ def ob_equivocation(run, oid):
         ent = [c.bb for c in b.calls() if c.name.endswith("BTreeMap::entry") and K.mentions_field(b.operand_term(c.args[0]), "commitment_cache", "BlockData")]
         o.check(bool(ent) and all(b.dominates(e, sbb) for e in ent), "BlockData::add_shred|store|after-cache-check", "the commitment check dominates the storage of the shred", ssp)
         o.check(not any(b.can_reach(ebb, sbb) for (ebb, _sp) in eqs), "BlockData::add_shred|store|not-after-equivocation", "nothing is stored on an Equivocation path", ssp)
+    # the shred is stored at the array position named by its own (authenticated) shred index
+    for (bb, i, dst, rv, sp) in b.assignments():
+        t = b.rvalue_term(rv)
+        if t[0] == "agg" and t[1] == "core::option::Option" and t[2] == "Some" and K.peel(dict(t[3])["0"]) == ("param", 2, b.local_name(2)) and dst["p"] and dst["p"][-1][0] == "i":
+            it = b.local_term(dst["p"][-1][1])
+            o.check(K.mentions_field(it, "shred_index", "ShredPayload") and K.mentions(it, lambda x: x == ("param", 2, b.local_name(2))), "BlockData::add_shred|store|position",
+                    "stored at slice_shreds[*shred.payload().shred_index] (position == index, asserted by ValidatedShreds::try_new)", sp, {"index": mir.show(it)[:100]})
     # flagging
     for fn in ("add_shred_from_dissemination", "add_shred_from_repair"):
         for fb in prog.family("<" + A + "consensus::blockstore::BlockstoreImpl as " + A + "consensus::blockstore::Blockstore>::" + fn):
